@@ -140,6 +140,35 @@ lib_close(struct lib* self)
 #define IS_STO_ID(i) ((i) >= BasicDevice_Storage_Raw && (i) < BasicDeviceKindCount)
 
 static struct DeviceIdentifier g_id0;
+
+/* The names a user selects devices by are the documented ones (README, "Acquire Common
+ * Driver"), in the order of enum BasicDeviceKind whose values basic_device_open dispatches
+ * on. Compared as selection compares them: whole name, case-insensitively. The loop bound
+ * is the literal 32 (every documented name is shorter): complete under --unwindset. */
+static int
+v_name_is(const char* name, const char* lit)
+{
+    for (int k = 0; k < 32; ++k) {
+        char a = name[k], b = lit[k];
+        if (a >= 'A' && a <= 'Z')
+            a = (char)(a + 32);
+        if (b >= 'A' && b <= 'Z')
+            b = (char)(b + 32);
+        if (a != b)
+            return 0;
+        if (a == 0)
+            return 1;
+    }
+    return 0;
+}
+#define DOCUMENTED_NAME(i)                                 \
+    ((i) == 0   ? "simulated: uniform random"              \
+     : (i) == 1 ? "simulated: radial sin"                  \
+     : (i) == 2 ? "simulated: empty"                       \
+     : (i) == 3 ? "raw"                                    \
+     : (i) == 4 ? "tiff"                                   \
+     : (i) == 5 ? "Trash"                                  \
+                : "tiff-json")
 #define CONTRACT_basic_device_describe(REQ, ENS, ASG, FRE)                                    \
     REQ(identifier != 0)                                                                      \
     ENS("[C12.enumeration-table] ids 0..6 are described: id echoed, cameras 0-2, storage "   \
@@ -148,6 +177,9 @@ static struct DeviceIdentifier g_id0;
              RET == Device_Ok && identifier->device_id == i &&                                \
                identifier->kind == (IS_CAM_ID(i) ? DeviceKind_Camera : DeviceKind_Storage) && \
                identifier->name[0] != 0 && identifier->name[sizeof(identifier->name) - 1] == 0)) \
+    ENS("[C12.enumeration-names] the name described for id i is the documented name of the " \
+        "device basic_device_open constructs for id i (whole name, case-insensitive)",        \
+        IMPL(i < BasicDeviceKindCount, v_name_is(identifier->name, DOCUMENTED_NAME(i))))      \
     ENS("[C12.out-of-range-is-error] any other index gives Device_Err and leaves the "       \
         "identifier untouched",                                                               \
         IMPL(i >= BasicDeviceKindCount,                                                       \
